@@ -272,7 +272,7 @@ class ParseMCNPCell:
                 keywords['material'] = kw_list.pop()
         return keywords
 
-    SHORTHAND_RE = re.compile(r'^[0-9]*[jr]$')
+    SHORTHAND_RE = re.compile(r'^(?:[0-9]*(?:[jri]|i?log)|[-+0-9.e]*m)$')
     # FILL followed by ranges, then numbers or shorthand, then a parenthesis
     FILL_ARRAY_PAREN_RE = re.compile(
         r'fill[\s=]*[-+]?[0-9]+:(?:[-+0-9.:\s]|[0-9]*[rimj](?![a-z]))*\(')
@@ -280,7 +280,8 @@ class ParseMCNPCell:
     @classmethod
     def pop_transform_numbers(cls, kw_list):
         '''Pop the numbers of an inline transformation from the keyword list.
-        The jump and repeat shorthands (``j``, ``3j``, ``2r``) are expanded;
+        The data-card shorthands (``j``, ``3j``, ``2r``, ``i``, ``2m``,
+        ``1ilog``) are expanded;
         a jumped entry is `None`, except in the displacement, where it is
         zero.'''
         tokens = []
